@@ -147,3 +147,20 @@ def cs_nbhttp_close_routed(sc):
     if len(re.findall(r"\bc\.Execute\(func\(\) \{", ws)) < 2:
         return False, "nbhttp/websocket/conn.go: message handlers are no longer submitted through c.Execute"
     return True, ""
+
+
+def cs_conn_close_flip(sc):
+    """closeWithError (the model's `close` step): the test-and-set of c.closed lies inside c.mux, the
+    teardown (closeWithErrorWithoutLock -> onClose -> MustExecute of the close handler) runs after the unlock."""
+    evs, err = _events("conn_unix.go", "Conn.closeWithError")
+    if evs is None:
+        return False, err
+    bad = _all_under(evs, "c.closed", "c.mux")
+    if bad or not any(e["ev"] == "sel" and e["what"] == "c.closed" for e in evs):
+        return False, "Conn.closeWithError touches c.closed outside c.mux (or not at all): %s" % bad[:3]
+    td = [e for e in evs if e["ev"] == "call" and e["what"].startswith("c.closeWithErrorWithoutLock(")]
+    if not td or any(e["held"] for e in td):
+        return False, "Conn.closeWithError: teardown must run with no mutex held: %s" % [e["line"] for e in td]
+    if any(e["ev"] == "warn" for e in evs):
+        return False, "Conn.closeWithError: unmergeable lock state"
+    return True, ""
